@@ -431,8 +431,9 @@ def normalize_url(
         fragment = safely_quote(fragment)
 
     # Result
-    netloc = unsplit_netloc(user, password, hostname, port)
-    result = SplitResult(scheme, netloc.lower(), path, query, fragment)
+    # NOTE: only the hostname is case-insensitive, not the userinfo
+    netloc = unsplit_netloc(user, password, hostname.lower(), port)
+    result = SplitResult(scheme, netloc, path, query, fragment)
 
     if not unsplit:
         return result
